@@ -271,6 +271,38 @@ def resource_accessors(ctx):
     ctx.need(n >= 2, "accessors of a target's declared input / output")
 
 
+@rule("C06.WATCH-OPTION-WIRED", ["C06"], """`--watch` turns watching on: every construction of WatchOption::Enabled from a flag sits on the true edge of that flag (and is reachable), Disabled on the
+      false edge, and main derives the option from the WATCH argument""", "K1", floor=2)
+def watch_option_wired(ctx):
+    f = ctx.f
+    r = ctx.r
+    n = 0
+    for b in f.user_bodies():
+        en = list(b.aggregates("WatchOption", "Enabled")) + [(blk["id"], st) for blk in b.normal_blocks() for st in blk["stmts"]
+                                                               if st["rv"]["k"] == "use" and st["rv"]["op"]["k"] == "const" and str(st["rv"]["op"].get("val", "")).endswith("WatchOption::Enabled")]
+        if not en:
+            continue
+        live = b.reachable_blocks()
+        for (bb, st) in en:
+            n += 1
+            Gt = guard_region(b, lambda d: d[0] == "param", True)
+            ctx.check(bb in live and (bb in Gt or b.argc == 0), f"{short(b.name)}/enabled-on-true", [site(b, bb)],
+                      "WatchOption::Enabled is not what a true flag converts to (dead code, or chosen on the wrong branch): `--watch` would not watch")
+    # main: the option handed to the engine derives from is_present(WATCH)
+    m = f.bodies[r.main_body().name]
+    ma = r.main_async()
+    ok = False
+    for body in (m, f.bodies[ma.name]):
+        for bb, t in body.calls():
+            if t["callee"]["base"].endswith("ArgMatches::is_present") and len(t["args"]) > 1 and any(a[0] == "static" and a[1].endswith("WATCH") for a in body.prov.operand_atoms(t["args"][1])):
+                fl = body.prov.flows_forward(t["dest"]["local"])
+                if any("WatchOption" in body.locals[l]["ty"] for l in fl):
+                    ok = True
+    n += 1
+    ctx.check(ok, "main/option-from-watch-flag", [m.loc()], "the watch option is not derived from the WATCH command-line flag")
+    ctx.need(n >= 2, "construction of WatchOption::Enabled and its use in main")
+
+
 @rule("C06.WATCHER-RETAINED", ["C06", "C13"], """in watch mode the launcher builds the watcher from the target's whole input and the actor's own invalidation sender, and keeps
       it alive in the handle set stored by TargetActors""", "K5", floor=2)
 def watcher_retained(ctx):
